@@ -55,17 +55,22 @@ def parse_cardinality(val):
         min_val = parsed_vals[0].strip()
         max_val = parsed_vals[1].strip()
 
-        min_int = min_val.isdecimal() and int(min_val) >= 0
-        max_int = max_val.isdecimal() and int(max_val) >= 0
+        try:
+            min_int = min_val.isdecimal() and int(min_val) >= 0
+            max_int = max_val.isdecimal() and int(max_val) >= 0
 
-        if min_int and max_int and int(max_val) >= int(min_val):
-            return int(min_val), int(max_val)
+            if min_int and max_int and int(max_val) >= int(min_val):
+                return int(min_val), int(max_val)
 
-        if min_int and max_val == "None":
-            return int(min_val), None
+            if min_int and max_val == "None":
+                return int(min_val), None
 
-        if max_int and min_val == "None":
-            return None, int(max_val)
+            if max_int and min_val == "None":
+                return None, int(max_val)
+        except ValueError:
+            # int() refuses decimal text it does not convert, e.g. a number with more
+            # digits than the interpreter's limit for integer string conversion.
+            return None
 
     # Todo we were not able to properly parse the current cardinality
     # add an appropriate Error/Warning
